@@ -60,9 +60,48 @@ by function name, all text derives from the AST; what a spec declares is listed 
     generator re-uses one buffer).
   * LOCAL ATTRIBUTES (`local_attrs`): `self.x = e` followed by reads of `self.x` in the same function: a local variable.
 
+  * HIGHER RANKS, MASKS, THE 3-D GEOMETRY (taurex/util/geometry.py; added for the tie of C01's new path method):
+      - arrays of rank 3 and 4 (kinds 'arr3', 'arr4'), 2-D masks ('barr2'); `X.shape[k]` of an axis of known length;
+        `np.array(X)` of an array (a copy); `X.T`; `~M`; element-wise float `==` / `!=` (IEEE, as for scalars);
+        `X.sum(axis=0)` / `np.sum(X, axis=0)` of any rank >= 2; `np.linalg.norm(X, axis=0)` (sqrt of the sum of squares
+        along the first axis, the sum as `np.sum(…, axis=0)`); `with np.errstate(…):` (transparent);
+      - `np.nan` and `np.isfinite(X)` are PARAMETERS (`nan : α`, `isfinite : α → Bool`): NaN is not a value of the carrier;
+        the tie theorem states what `isfinite` is instantiated with;
+      - tests on the number of True elements of a mask: `M.sum() == 0`, `M.sum() != 0`, `M.sum() > 0` ↦ no / some element;
+      - BOOLEAN-MASK INDEXING.  `X[…, M, …]` (one mask M covering M.ndim axes, integers, full slices) is a value whose masked
+        axes form ONE axis addressed by the original indices (class MaskAx; numpy's placement of the axis of the advanced
+        indices is followed).  It may be (a) the value of a store whose target is selected by the SAME mask expression —
+        `a[:, M] = v[:, M]`, `S[0, :, M] = X[:, M].T`: numpy pairs the n-th selected target element with the n-th selected
+        value element, i.e. the same original position —, or (b) bound at once, when 1-D, as the COMPRESSED array
+        (`dists = D[m, i]`): its length is `((List.range n).filter m).length`, its k-th element the element at the k-th
+        True position.  Stores `a[M] = c` with a full-rank mask, `a[i, :, M] = E`;
+      - OPTIONAL RESULTS: `returns='optarr4' | 'optlarrlist'`: `return None` ↦ `none`, `return X` ↦ `some X`;
+        `x = f(…)` of such a translated f; `if x is not None: … return … else: return None` ↦ `match`;
+      - LISTS OF TUPLES: `tuple_appends={'xs': ['skip', 'larr']}`: `xs = []`, `xs.append((idx, E))` keeps of every tuple the
+        one 1-D array declared 'larr', WITH its length: `List (Nat × (Nat → α))` (kind 'larrlist');
+      - CALLS with keyword arguments / omitted trailing arguments of a translated function: only parameters of kind 'skip'
+        may be omitted or passed by keyword; `assume={'axis': 0}` declares the constant such a parameter is ASSUMED to have
+        (the function is translated for that value: tests on it are static, `axis=axis` resolves): every call is checked to
+        pass that constant (a literal, the caller's own assumed parameter, or the default);
+      - `ret_dims`: the declared shape of the returned array(s): checked at `return`, known to the callers;
+      - `opaque_if={'<test text>': name}`: the TEST of that `if` (a statement of the function body, no else) is translated,
+        its BODY becomes one abstract function parameter `name` of every variable the body reads before defining it
+        (names bound by `ignore_stmts` contribute what they are derived from), returning the re-bound variables that are
+        used afterwards.  Sound for bodies that only compute on local variables (checked).  Edits inside such a body are
+        not seen by the tie (the tie theorem must say so); an edit of its test is.
+
+  * OBJECT BOOKKEEPING (SimpleForwardModel.model_contrib, C03): `local_objlists={'self.contribution_list': 'contribs'}`:
+    `self.contribution_list = [obj]` binds the object list a translated callee reads (its parameter of that lean name) to the
+    one-element list, `self.contribution_list = <the declared list>` at the level of the function body puts the list of the
+    entry back; a method declared `updates_obj=True` (`contrib.prepare(…)`) replaces the object by an abstract function of it
+    (`prepare : ι → ι`) and re-binds the lists built from it (python aliasing); `dicts={'d': dict(key=('contrib.name', 'name'),
+    value=[kinds])}`: `d = {}`, `d[contrib.name] = (…)` on a dict kept as an insertion-ordered association list with string
+    keys (`name : ι → String`): an existing key keeps its position and gets the new value.
+
 Spec keys of this dialect (besides those of Fn): `out`, `returns` (kind or list of kinds; also 'arrlist', 'arr2list',
 'optarr2'), `dims` (python text of an array -> [length per axis]), `objlists`, `obj_assign`, `vallists`, `methods`,
 `obj_externals`, `obj_derived`, `call_list_externals`, `list_externals`, `shaped_externals`, `local_attrs`,
+`assume`, `ret_dims`, `tuple_appends`, `opaque_if`, `local_objlists`, `dicts` (above),
 `ignore_stores` (attribute stores that are side effects outside the translated value), `ignore_stmts` (exact statement
 texts that only bind helper objects), `static` (text of a test -> the truth value the TIE ASSUMES, e.g. the opacity
 method), `optional_vars`, `yields`.  Every declaration is matched against the source text: a statement that no longer
@@ -110,6 +149,38 @@ def full_slice():
     return ast.Slice(lower=None, upper=None, step=None)
 
 
+# number of axes per array kind (float arrays `arr`…`arr4`, masks `barr`, `barr2`)
+NDIM = {'arr': 1, 'arr2': 2, 'arr3': 3, 'arr4': 4, 'barr': 1, 'barr2': 2}
+FARR = ('arr', 'arr2', 'arr3', 'arr4')
+OPT_KINDS = {'optarr4': 'arr4', 'optlarrlist': 'larrlist'}      # Option kinds -> the kind of the value inside
+
+
+class MaskAx:
+    """an axis of a value selected by a boolean mask (`X[..., M, ...]`): it stands for the `k` ORIGINAL axes the mask
+    covers; an element is addressed by the original indices (a list of `k` index texts).  Such a value exists only inside
+    one statement: as the value of a store whose target is selected by the SAME mask (numpy pairs the n-th selected target
+    element with the n-th selected value element: the same original position), or bound at once as a compressed 1-D array"""
+
+    def __init__(self, text, mask):
+        self.text = text             # python text of the mask expression
+        self.mask = mask             # the boolean AV
+        self.k = mask.ndim
+
+    def same(self, other):
+        return isinstance(other, MaskAx) and other.text == self.text and other.k == self.k
+
+
+def flat(ix):
+    """index texts, a masked axis contributing its original indices"""
+    out = []
+    for x in ix:
+        if isinstance(x, (list, tuple)):
+            out.extend(x)
+        else:
+            out.append(x)
+    return out
+
+
 def is_none(i):
     return isinstance(i, ast.Constant) and i.value is None
 
@@ -119,7 +190,7 @@ def is_ellipsis(i):
 
 
 class FnShaped(translate.Fn):
-    BINDERS = ['i__', 'j__', 'k__']
+    BINDERS = ['i__', 'j__', 'k__', 'l__']
 
     def __init__(self, spec, tree, src_lines, known_funcs):
         super().__init__(spec, tree, src_lines, known_funcs)
@@ -144,6 +215,14 @@ class FnShaped(translate.Fn):
         self.obj_alias = {}              # python variable -> the loop object it stands for
         self.optext = {}                 # python variable holding an optional external -> Lean text of "is not None"
         self.local_attrs = set(sp.get('local_attrs', ()))   # attributes (declared in attrs) assigned here before use
+        self.assume = dict(sp.get('assume', {}))          # 'skip' parameter -> the constant the TIE ASSUMES it has (callers are checked)
+        self.ret_dims = sp.get('ret_dims')                # declared shape(s) of the returned array(s) (checked at `return`)
+        self.tuple_appends = dict(sp.get('tuple_appends', {}))   # list variable -> kinds of the tuples appended to it
+        self.opaque_if = dict(sp.get('opaque_if', {}))    # test text -> lean name: the body of that `if` is an abstract function
+        self.ignored_bind = {}           # name bound by an ignored statement -> the names its right-hand side reads
+        self.local_objlists = dict(sp.get('local_objlists', {}))   # attribute holding an object list that is assigned here -> lean name
+        self.dicts = dict(sp.get('dicts', {}))            # dict variable -> dict(key=(python text, lean name), value=[kinds])
+        self.objlist_elems = {}          # lean name of a local object list -> the object variables it was built from
         self.uses_iota = False
         self.fresh = 0
         self.ctx = []                    # enclosing binders and the statements translated so far (for the shape obligations)
@@ -177,6 +256,14 @@ class FnShaped(translate.Fn):
     # ------------------------------------------------------------------ shapes
     def need_equal(self, a, b, node):
         """numpy requires the two axis lengths to agree (an axis inserted by None broadcasts)"""
+        if isinstance(a, MaskAx) or isinstance(b, MaskAx):
+            if isinstance(a, MaskAx) and a.same(b):
+                return a
+            if isinstance(a, MaskAx) and b == BC:
+                return a
+            if isinstance(b, MaskAx) and a == BC:
+                return b
+            self.fail(node, 'an axis selected by a mask combined with another axis')
         if a == BC:
             return b
         if b == BC:
@@ -222,9 +309,9 @@ class FnShaped(translate.Fn):
         return av.elem(idx[n - av.ndim:])
 
     def var_av(self, nm, kind, shape, base):
-        nd = {'arr': 1, 'arr2': 2, 'barr': 1}[kind]
+        nd = NDIM[kind]
         shp = shape if shape is not None else [None] * nd
-        return AV(shp, lambda ix, nm=nm: '(%s %s)' % (nm, ' '.join(ix)), dtype='b' if kind == 'barr' else 'f',
+        return AV(shp, lambda ix, nm=nm: '(%s %s)' % (nm, ' '.join(flat(ix))), dtype='b' if kind in ('barr', 'barr2') else 'f',
                   plain=nm, base=base)
 
     # ------------------------------------------------------------------ array expressions
@@ -232,7 +319,7 @@ class FnShaped(translate.Fn):
         """AV / LV for an array- or list-valued expression, None for anything else"""
         if isinstance(node, ast.Name):
             k = env.get(node.id)
-            if k in ('arr', 'arr2', 'barr'):
+            if k in NDIM:
                 return self.var_av(self.var(node.id), k, self.shapes.get(node.id), node.id)
             if k in ('arrlist', 'arr2list'):
                 return LV(self.var(node.id), base=node.id, rank=1 if k == 'arrlist' else 2)
@@ -248,6 +335,10 @@ class FnShaped(translate.Fn):
                 self.add_param(nm, self.lean_ty(k))
                 shp = [self.dim_text(d) for d in self.dims[t]] if t in self.dims else None
                 return self.var_av(nm, k, shp, t)
+            if node.attr == 'T':
+                a = self.aval(node.value, env)
+                if isinstance(a, AV):                     # transpose: the axes in reverse order
+                    return AV(list(reversed(a.shape)), lambda ix, a=a: a.elem(list(reversed(ix))), dtype=a.dtype)
             return None
         if isinstance(node, ast.List) and not node.elts:
             return LV('([] : List (Nat → α))')
@@ -273,6 +364,11 @@ class FnShaped(translate.Fn):
                 if a.dtype != 'f':
                     self.fail(node, 'arithmetic on a mask')
                 return AV(a.shape, lambda ix, a=a: '(-%s)' % a.elem(ix))
+            return None
+        if isinstance(node, ast.UnaryOp) and isinstance(node.op, ast.Invert):
+            a = self.aval(node.operand, env)
+            if isinstance(a, AV) and a.dtype == 'b':      # `~mask`
+                return AV(a.shape, lambda ix, a=a: '(!%s)' % a.elem(ix), dtype='b')
             return None
         if isinstance(node, ast.BinOp):
             return self.av_binop(node, env)
@@ -308,6 +404,10 @@ class FnShaped(translate.Fn):
             return 'decide (%s < %s)' % (b, a)
         if op is ast.GtE:
             return 'decide (%s ≤ %s)' % (b, a)
+        if op is ast.Eq:                                  # IEEE `==`, element-wise (as in cond_ext)
+            return '(decide (%s ≤ %s) && decide (%s ≤ %s))' % (a, b, b, a)
+        if op is ast.NotEq:
+            return '(!(decide (%s ≤ %s) && decide (%s ≤ %s)))' % (a, b, b, a)
         self.fail(node, 'unsupported comparison of arrays')
 
     def scalar_or(self, node, av, env):
@@ -436,12 +536,52 @@ class FnShaped(translate.Fn):
             else:
                 f = lambda x, y: '(let a__ := %s; let b__ := %s; if b__ < a__ then b__ else a__)' % (x, y)
             return self.av_map2(node, node.args[0], node.args[1], a, b, env, f)
+        if full in ('np.array', 'numpy.array') and len(node.args) == 1 and not node.keywords:
+            a = self.aval(node.args[0], env)
+            if isinstance(a, AV):                         # of an array: a copy
+                return AV(a.shape, a.elem, dtype=a.dtype)
+            return None
+        if full in ('np.isfinite', 'numpy.isfinite') and len(node.args) == 1 and not node.keywords:
+            a = self.aval(node.args[0], env)
+            if isinstance(a, AV) and a.dtype == 'f':
+                # IEEE finiteness is not a notion of the carrier: a parameter (the tie states what it is instantiated with)
+                self.add_param('isfinite', 'α → Bool')
+                return AV(a.shape, lambda ix, a=a: '(isfinite %s)' % a.elem(ix), dtype='b')
+            return None
+        if full in ('np.linalg.norm', 'numpy.linalg.norm') and len(node.args) == 1:
+            kw = {k.arg: k.value for k in node.keywords}
+            a = self.aval(node.args[0], env)
+            if isinstance(a, AV) and a.dtype == 'f' and set(kw) == {'axis'} and self.const_value(kw['axis']) == 0 \
+                    and not isinstance(self.const_value(kw['axis']), bool) and a.ndim >= 2:
+                n0 = a.shape[0]
+                if n0 is None or n0 == BC or isinstance(n0, MaskAx):
+                    self.fail(node, 'norm over an axis of undeclared length')
+                s = self.fresh_name('s')
+                self.literals.add(0)
+                # 2-norm along the first axis: sqrt(add.reduce(x*x, axis=0)), the sum as np.sum(…, axis=0) is translated
+                return AV(a.shape[1:], lambda ix, a=a, s=s, n0=n0:
+                          '(sqrt ((List.range %s).foldl (fun acc__ %s => acc__ + (let b__ := %s; b__ * b__)) (0 : α)))'
+                          % (n0, s, a.elem([s] + ix)))
+            return None
+        if isinstance(node.func, ast.Attribute) and node.func.attr == 'sum' and not node.args \
+                and [k.arg for k in node.keywords] == ['axis'] and self.const_value(node.keywords[0].value) == 0 \
+                and not isinstance(self.const_value(node.keywords[0].value), bool):
+            a = self.aval(node.func.value, env)
+            if isinstance(a, AV) and a.dtype == 'f' and a.ndim >= 2:      # X.sum(axis=0) = np.sum(X, axis=0)
+                n0 = a.shape[0]
+                if n0 is None or n0 == BC or isinstance(n0, MaskAx):
+                    self.fail(node, 'sum over an axis of undeclared length')
+                s = self.fresh_name('s')
+                self.literals.add(0)
+                return AV(a.shape[1:], lambda ix, a=a, s=s, n0=n0:
+                          '((List.range %s).foldl (fun acc__ %s => acc__ + %s) (0 : α))' % (n0, s, a.elem([s] + ix)))
+            return None
         if full in ('np.sum', 'numpy.sum') and len(node.args) == 1:
             kw = {k.arg: k.value for k in node.keywords}
             a = self.aval(node.args[0], env)
             if not isinstance(a, AV) or a.dtype != 'f':
                 return None
-            if set(kw) == {'axis'} and isinstance(kw['axis'], ast.Constant) and kw['axis'].value == 0 and a.ndim == 2:
+            if set(kw) == {'axis'} and isinstance(kw['axis'], ast.Constant) and kw['axis'].value == 0 and a.ndim >= 2:
                 n0 = a.shape[0]
                 if n0 is None or n0 == BC:
                     self.fail(node, 'np.sum over an axis of undeclared length')
@@ -457,6 +597,15 @@ class FnShaped(translate.Fn):
                 return LV(txt)
             return self.var_av(txt, tgt['returns'], None, None)
         return None
+
+    def const_value(self, node):
+        """the python constant an expression denotes: a literal, or a parameter with a declared `assume`d value; else the
+        unique marker `Ellipsis`"""
+        if isinstance(node, ast.Constant):
+            return node.value
+        if isinstance(node, ast.Name) and node.id in self.assume:
+            return self.assume[node.id]
+        return Ellipsis
 
     def obj_ext_head(self, node, d, env):
         """`<lean> obj… scalar…` for a declared external that depends on loop objects (and scalar arguments)"""
@@ -476,6 +625,8 @@ class FnShaped(translate.Fn):
 
     def known_call(self, node, tgt, env):
         """text of a call of a function translated earlier in the same file"""
+        if (node.keywords or len(node.args) < len(tgt['arg_kinds'])) and 'assume' in tgt:
+            node = self.normalize_call(node, tgt)
         if node.keywords:
             self.fail(node, 'keyword arguments in a call')
         if len(node.args) != len(tgt['arg_kinds']):
@@ -483,10 +634,12 @@ class FnShaped(translate.Fn):
         args = []
         for a, k, pn in zip(node.args, tgt['arg_kinds'], tgt['arg_names']):
             if k == 'skip':
+                if pn in tgt.get('assume', {}) and a is not None and self.const_value(a) != tgt['assume'][pn]:
+                    self.fail(node, 'argument %s differs from the value the translation of the callee assumes' % pn)
                 continue
             if k == 'nat':
                 args.append(self.index(a, env, tgt['index_dims'].get(pn)))
-            elif k in ('arr', 'arr2', 'arrlist'):
+            elif k in ('arr', 'arr2', 'arrlist', 'arr3', 'arr4'):
                 args.append(self.arr_arg(a, k, env))
             else:
                 args.append(self.expr(a, env))
@@ -509,6 +662,32 @@ class FnShaped(translate.Fn):
             args.append(nm)
         return '(%s %s)' % (tgt['lean'], ' '.join(args))
 
+    def normalize_call(self, node, tgt):
+        """a call with keyword arguments / omitted trailing arguments, as the positional call it means.  Only parameters of
+        kind 'skip' may be omitted (their default must be the value the callee's translation assumes, if it assumes one)"""
+        names = tgt['arg_names']
+        if len(node.args) > len(names):
+            self.fail(node, 'call with more arguments than the definition')
+        actual = dict(zip(names, node.args))
+        for k in node.keywords:
+            if k.arg is None or k.arg not in names or k.arg in actual:
+                self.fail(node, 'unsupported keyword argument')
+            actual[k.arg] = k.value
+        args = []
+        for pn, kind in zip(names, tgt['arg_kinds']):
+            if pn in actual:
+                args.append(actual[pn])
+                continue
+            if kind != 'skip' or pn not in tgt.get('defaults', {}):
+                self.fail(node, 'argument %s is not passed' % pn)
+            d = ast.parse(tgt['defaults'][pn], mode='eval').body
+            if pn in tgt.get('assume', {}) and not (isinstance(d, ast.Constant) and d.value == tgt['assume'][pn]
+                                                   and type(d.value) is type(tgt['assume'][pn])):
+                self.fail(node, 'the default of %s is not the value the translation of the callee assumes' % pn)
+            args.append(d if pn in tgt.get('assume', {}) else None)
+        new = ast.Call(func=node.func, args=[a if a is not None else ast.Constant(value=None) for a in args], keywords=[])
+        return ast.copy_location(new, node)
+
     def arr_arg(self, node, kind, env):
         """an array passed to a call: any array expression of the right rank"""
         v = self.aval(node, env)
@@ -516,7 +695,7 @@ class FnShaped(translate.Fn):
             if isinstance(v, LV):
                 return v.text
             self.fail(node, 'a list of arrays is expected')
-        if not isinstance(v, AV) or v.ndim != (1 if kind == 'arr' else 2) or v.dtype != 'f':
+        if not isinstance(v, AV) or v.ndim != NDIM[kind] or v.dtype != 'f' or any(isinstance(d, MaskAx) for d in v.shape):
             self.fail(node, 'an array of kind %s is expected' % kind)
         return v.plain if v.plain else self.lam(v)
 
@@ -540,6 +719,11 @@ class FnShaped(translate.Fn):
 
     def sub(self, base, idxs, env, node):
         """numpy basic indexing of an AV"""
+        masks = {id(i): self.aval(i, env) for i in idxs
+                 if not isinstance(i, ast.Slice) and not is_none(i) and not is_ellipsis(i)}
+        masks = {key: m for key, m in masks.items() if isinstance(m, AV) and m.dtype == 'b'}
+        if masks:
+            return self.sub_masked(base, idxs, masks, env, node)
         idxs = self.norm_indices(idxs, base.ndim, node)
         plan = []          # per base axis: ('fix', text) | ('map', result axis, fn r -> text, is identity)
         shape = []
@@ -592,6 +776,65 @@ class FnShaped(translate.Fn):
             plain = '(%s %s)' % (base.plain, ' '.join(p[1] for p in plan[:nfix])) if nfix else base.plain
         return AV(shape, elem, dtype=base.dtype, plain=plain, base=base.base)
 
+    def sub_masked(self, base, idxs, masks, env, node):
+        """`X[…, M, …]` with ONE boolean mask M (covering M.ndim axes), integers and full slices: the selected elements, the
+        masked axes seen as one axis addressed by the ORIGINAL indices (class MaskAx).  numpy puts the axis of the advanced
+        indices (the mask and, next to a mask, the integers) where they stand when they are adjacent, else first."""
+        if len(masks) != 1 or any(is_none(i) or is_ellipsis(i) for i in idxs):
+            self.fail(node, 'unsupported combination of a mask with other indices')
+        entries = []       # per index: ('mask', MaskAx) | ('fix', text) | ('all',)
+        ax = 0
+        for i in idxs:
+            if id(i) in masks:
+                m = masks[id(i)]
+                for d in range(m.ndim):
+                    if ax + d >= base.ndim:
+                        self.fail(node, 'too many indices')
+                    self.need_equal(m.shape[d], base.shape[ax + d], node)
+                entries.append(('mask', MaskAx(ast.unparse(i), m)))
+                ax += m.ndim
+            elif isinstance(i, ast.Slice):
+                if i.lower is not None or i.upper is not None or i.step is not None:
+                    self.fail(node, 'a mask combined with a proper slice')
+                entries.append(('all', base.shape[ax] if ax < base.ndim else None))
+                ax += 1
+            else:
+                ln = base.shape[ax] if ax < base.ndim else None
+                entries.append(('fix', self.index(i, env, ln if isinstance(ln, str) and ln != BC else None)))
+                ax += 1
+        if ax > base.ndim:
+            self.fail(node, 'too many indices')
+        while ax < base.ndim:
+            entries.append(('all', base.shape[ax]))
+            ax += 1
+        adv = [n for n, e in enumerate(entries) if e[0] in ('mask', 'fix')]
+        adjacent = adv == list(range(adv[0], adv[-1] + 1))
+        # result axes: (position in the result) -> entry
+        res = []           # entries that carry a result axis, in result order
+        if adjacent:
+            for n, e in enumerate(entries):
+                if e[0] == 'all' or e[0] == 'mask':
+                    res.append(n)
+        else:
+            res = [n for n, e in enumerate(entries) if e[0] == 'mask'] + [n for n, e in enumerate(entries) if e[0] == 'all']
+        shape = [entries[n][1] for n in res]
+
+        def elem(ix, entries=entries, res=res, base=base):
+            at = {n: ix[r] for r, n in enumerate(res)}
+            out = []
+            for n, e in enumerate(entries):
+                if e[0] == 'fix':
+                    out.append(e[1])
+                elif e[0] == 'mask':
+                    orig = at[n]
+                    if not isinstance(orig, (list, tuple)) or len(orig) != e[1].k:
+                        raise Untranslatable('an axis selected by a mask addressed by a position inside the selection')
+                    out.extend(orig)
+                else:
+                    out.append(at[n])
+            return base.elem(out)
+        return AV(shape, elem, dtype=base.dtype, base=base.base)
+
     def slice_bound(self, node, ln, env, where):
         if isinstance(node, ast.UnaryOp) and isinstance(node.op, ast.USub) and isinstance(node.operand, ast.Constant) \
                 and isinstance(node.operand.value, int):
@@ -608,6 +851,17 @@ class FnShaped(translate.Fn):
             a = self.aval(node.value, env)
             if isinstance(a, AV) and a.ndim == 1 and a.shape[0] not in (None, BC):
                 return a.shape[0]
+        if isinstance(node, ast.Subscript) and isinstance(node.value, ast.Attribute) and node.value.attr == 'shape' \
+                and isinstance(node.slice, ast.Constant) and isinstance(node.slice.value, int) \
+                and not isinstance(node.slice.value, bool) and node.slice.value >= 0:
+            # `X.shape[k]` of an array whose k-th axis has a known (symbolic) length
+            m = re.fullmatch(r'(\w+)\.shape\[0\]', ast.unparse(node))
+            if m and m.group(1) in self.lens:
+                return None                               # (the declared-length rule of Fn)
+            a = self.aval(node.value.value, env)
+            k = node.slice.value
+            if isinstance(a, AV) and k < a.ndim and isinstance(a.shape[k], str) and a.shape[k] != BC:
+                return a.shape[k]
         if isinstance(node, ast.Call) and ast.unparse(node.func) in ('np.searchsorted', 'numpy.searchsorted') \
                 and len(node.args) == 2:
             kw = {k.arg: k.value for k in node.keywords}
@@ -628,12 +882,12 @@ class FnShaped(translate.Fn):
         return None
 
     def is_nat(self, node, env):
-        if isinstance(node, (ast.Attribute, ast.Call)) and self.nat_ext(node, env) is not None:
+        if isinstance(node, (ast.Attribute, ast.Call, ast.Subscript)) and self.nat_ext(node, env) is not None:
             return True
         return super().is_nat(node, env)
 
     def nat(self, node, env):
-        if isinstance(node, (ast.Attribute, ast.Call)):
+        if isinstance(node, (ast.Attribute, ast.Call, ast.Subscript)):
             r = self.nat_ext(node, env)
             if r is not None:
                 return r
@@ -694,6 +948,9 @@ class FnShaped(translate.Fn):
         if isinstance(node, ast.Attribute) and ast.unparse(node) in ('np.inf', 'numpy.inf'):
             self.add_param('inf', 'α')
             return 'inf'
+        if isinstance(node, ast.Attribute) and ast.unparse(node) in ('np.nan', 'numpy.nan'):
+            self.add_param('nan', 'α')                    # not a value of the carrier: a parameter (cf. `isfinite`)
+            return 'nan'
         if isinstance(node, ast.Attribute) and ast.unparse(node) in ('np.pi', 'numpy.pi', 'math.pi'):
             self.add_param('pi', 'α')
             return 'pi'
@@ -743,8 +1000,44 @@ class FnShaped(translate.Fn):
                ast.Lt: 'decide (%s < %s)' % (x, c), ast.LtE: 'decide (%s ≤ %s)' % (x, c)}[op]
         return '((List.range %s).all (fun %s => %s))' % (a.shape[0], s, rel)
 
+    def mask_count_test(self, node, env):
+        """`M.sum() == 0`, `M.sum() != 0`, `M.sum() > 0` for a boolean mask M of known shape (the number of True elements):
+        no / some element is True"""
+        if not (isinstance(node, ast.Compare) and len(node.ops) == 1 and isinstance(node.ops[0], (ast.Eq, ast.NotEq, ast.Gt))):
+            return None
+        l, r = node.left, node.comparators[0]
+        if not (isinstance(r, ast.Constant) and r.value == 0 and not isinstance(r.value, bool)):
+            return None
+        if not (isinstance(l, ast.Call) and isinstance(l.func, ast.Attribute) and l.func.attr == 'sum' and not l.args
+                and not l.keywords):
+            return None
+        m = self.aval(l.func.value, env)
+        if not (isinstance(m, AV) and m.dtype == 'b'):
+            return None
+        if any(not isinstance(d, str) or d == BC for d in m.shape):
+            self.fail(node, 'count of a mask of undeclared shape')
+        bs = [self.fresh_name('s') for _ in m.shape]
+        txt = m.elem(bs)
+        for b, d in reversed(list(zip(bs, m.shape))):
+            txt = '((List.range %s).any (fun %s => %s))' % (d, b, txt)
+        return '(!%s)' % txt if isinstance(node.ops[0], ast.Eq) else txt
+
+    def cond(self, node, env):
+        late = getattr(self, '_late_shapes', {}).get(id(node))
+        if late is None:
+            return super().cond(node, env)
+        keep = self.shapes, self.views
+        self.shapes, self.views = dict(late[0]), dict(late[1])
+        try:
+            return super().cond(node, env)
+        finally:
+            self.shapes, self.views = keep
+
     def cond_ext(self, node, env):
         r = self.minmax_test(node, env)
+        if r is not None:
+            return r
+        r = self.mask_count_test(node, env)
         if r is not None:
             return r
         if isinstance(node, ast.Compare) and len(node.ops) == 1 and isinstance(node.ops[0], (ast.Is, ast.IsNot)) \
@@ -773,6 +1066,9 @@ class FnShaped(translate.Fn):
     def assigned_ext(self, s, env, add):
         """variables (re)bound by an expression statement"""
         super().assigned_ext(s, env, add)
+        if isinstance(s, ast.With):
+            for n in self.assigned(s.body, env):
+                add(n)
         if isinstance(s, ast.Expr) and isinstance(s.value, ast.Yield) and self.spec.get('yields') == 'list':
             add('yield__')
         if not (isinstance(s, ast.Expr) and isinstance(s.value, ast.Call)):
@@ -813,7 +1109,20 @@ class FnShaped(translate.Fn):
             if v.base is not None and v.base != name:
                 self.views[name] = v.base
             return '%slet %s : %s := %s\n' % (ind, self.var(name), self.lean_ty(v.kind), v.text)
-        kind = {('f', 1): 'arr', ('f', 2): 'arr2', ('b', 1): 'barr'}.get((v.dtype, v.ndim))
+        pre = ''
+        if any(isinstance(d, MaskAx) for d in v.shape):
+            # `x = A[M, …]` for a 1-D selection by a 1-D mask: the compressed array.  Its length is the number of True elements,
+            # its n-th element is the element of A at the n-th True position.
+            ax = v.shape[0]
+            if v.ndim != 1 or ax.k != 1 or v.dtype != 'f' or not isinstance(ax.mask.shape[0], str) or ax.mask.shape[0] == BC:
+                self.fail(node, 'only a 1-D selection by a 1-D mask of known length can be bound to a variable')
+            sel = '((List.range %s).filter (fun j__ => %s))' % (ax.mask.shape[0], ax.mask.elem(['j__']))
+            cnt = self.fresh_name('nsel')
+            pre = '%slet %s := %s.length\n' % (ind, cnt, sel)
+            env[cnt] = 'nat'
+            v = AV([cnt], lambda ix, v=v, sel=sel: v.elem([['(%s.getD %s 0)' % (sel, ix[0])]]))
+        kind = {('f', 1): 'arr', ('f', 2): 'arr2', ('b', 1): 'barr', ('f', 3): 'arr3', ('f', 4): 'arr4',
+                ('b', 2): 'barr2'}.get((v.dtype, v.ndim))
         if kind is None:
             self.fail(node, 'unsupported array type / rank')
         txt = v.plain if v.plain else self.lam(v)[1:-1]
@@ -821,7 +1130,7 @@ class FnShaped(translate.Fn):
         self.shapes[name] = list(v.shape)
         if v.base is not None and v.base != name:
             self.views[name] = v.base
-        return '%slet %s : %s := %s\n' % (ind, self.var(name), self.lean_ty(kind), txt)
+        return pre + '%slet %s : %s := %s\n' % (ind, self.var(name), self.lean_ty(kind), txt)
 
     def stmt_ext(self, s, env, ind, rest, tail, inline):
         """returns None (not ours) or (text, stop)"""
@@ -852,6 +1161,113 @@ class FnShaped(translate.Fn):
                 env[key] = 'optarr2'
                 return '%slet %s : %s := %s\n' % (ind, nm, self.lean_ty(k), self.var(s.value.id)), False
             self.fail(s, 'unsupported kind of local attribute')
+        # ---- with np.errstate(...): body   (only changes the reporting of floating-point warnings)
+        if isinstance(s, ast.With):
+            for it in s.items:
+                if it.optional_vars is not None or not re.match(r'(np|numpy)\.errstate\(', ast.unparse(it.context_expr)):
+                    self.fail(s, 'unsupported context manager')
+            if self.ends_in_return(s.body) or self.has_break(s.body):
+                self.fail(s, 'return / break inside a with block')
+            return self.block(s.body, env, ind, None, inline=True), False
+        # ---- if <declared test>: <body>  with the body as an abstract function of everything it reads
+        if isinstance(s, ast.If) and ast.unparse(s.test) in self.opaque_if:
+            return self.opaque_branch(s, env, ind, rest), False
+        # ---- if x is not None: A else: B  (both return) for an optional value x: a `match`
+        if isinstance(s, ast.If) and isinstance(s.test, ast.Compare) and len(s.test.ops) == 1 \
+                and isinstance(s.test.ops[0], (ast.Is, ast.IsNot)) and isinstance(s.test.left, ast.Name) \
+                and env.get(s.test.left.id) in OPT_KINDS and isinstance(s.test.comparators[0], ast.Constant) \
+                and s.test.comparators[0].value is None and not inline:
+            x = s.test.left.id
+            some_b, none_b = (s.orelse, s.body) if isinstance(s.test.ops[0], ast.Is) else (s.body, s.orelse)
+            some_b, none_b = list(some_b), list(none_b)
+            if not (self.ends_in_return(s.body) and s.orelse and self.ends_in_return(s.orelse)):
+                # one branch returns, the other falls through to the rest of the block
+                if self.ends_in_return(s.body) and not s.orelse:
+                    if isinstance(s.test.ops[0], ast.Is):
+                        some_b = list(rest)
+                    else:
+                        none_b = list(rest)
+                else:
+                    self.fail(s, 'unsupported None test of an optional value')
+            e1, e2 = dict(env), dict(env)
+            e1[x] = OPT_KINDS[env[x]]
+            sh = dict(self.shapes)
+            nctx = len(self.ctx)
+            self.ctx.append('∀ (%s : %s),\n' % (self.var(x), self.lean_ty(e1[x])))
+            b1 = self.block(some_b, e1, ind + '    ', tail)
+            del self.ctx[nctx:]
+            self.shapes = sh
+            self.ctx.append('%s = none →\n' % self.var(x))
+            b2 = self.block(none_b, e2, ind + '    ', tail)
+            del self.ctx[nctx:]
+            self.shapes = sh
+            return '%smatch %s with\n%s| some %s =>\n%s%s| none =>\n%s' % (ind, self.var(x), ind, self.var(x), b1, ind, b2), True
+        # ---- self.attr = [obj] / self.attr = <declared object list>  for an attribute that holds the object list a callee reads
+        if isinstance(s, ast.Assign) and len(s.targets) == 1 and isinstance(s.targets[0], ast.Attribute) \
+                and ast.unparse(s.targets[0]) in self.local_objlists:
+            lst = self.local_objlists[ast.unparse(s.targets[0])]
+            self.add_param(lst, 'List ι')
+            self.uses_iota = True
+            v = s.value
+            if isinstance(v, ast.List) and all(isinstance(e, ast.Name) and env.get(e.id) == 'obj' for e in v.elts):
+                self.objlist_elems[lst] = [e.id for e in v.elts]
+                return '%slet %s : List ι := [%s]\n' % (ind, lst, ', '.join(self.var(e.id) for e in v.elts)), False
+            if isinstance(v, ast.Name) and env.get(v.id) == 'objlist' and self.objlists.get(v.id) == lst \
+                    and any(s is st for st in self.node.body):
+                # the list the attribute held on entry is put back (at the level of the function body, where no local
+                # re-binding of it is in scope)
+                self.objlist_elems.pop(lst, None)
+                return '', False
+            self.fail(s, 'unsupported value for an object-list attribute')
+        # ---- d = {}  /  d[key] = (…)  for a declared dict
+        if isinstance(s, ast.Assign) and len(s.targets) == 1 and isinstance(s.targets[0], ast.Name) \
+                and s.targets[0].id in self.dicts and isinstance(s.value, ast.Dict) and not s.value.keys:
+            env[s.targets[0].id] = 'dict'
+            return '%slet %s : %s := []\n' % (ind, self.var(s.targets[0].id), self.lean_ty('dict')), False
+        if isinstance(s, ast.Assign) and len(s.targets) == 1 and isinstance(s.targets[0], ast.Subscript) \
+                and isinstance(s.targets[0].value, ast.Name) and env.get(s.targets[0].value.id) == 'dict':
+            name = s.targets[0].value.id
+            d = self.dicts[name]
+            ktext, klean = d['key']
+            kn = s.targets[0].slice
+            if ast.unparse(kn) != ktext or not (isinstance(kn, ast.Attribute) and isinstance(kn.value, ast.Name)
+                                                and env.get(kn.value.id) == 'obj'):
+                self.fail(s, 'the key of the dict store is not the declared attribute of a loop object')
+            self.add_param(klean, 'ι → String')
+            self.uses_iota = True
+            key = '(%s %s)' % (klean, self.var(kn.value.id))
+            if not (isinstance(s.value, ast.Tuple) and len(s.value.elts) == len(d['value'])):
+                self.fail(s, 'the stored value does not match the declared tuple')
+            parts = []
+            for e, k in zip(s.value.elts, d['value']):
+                if k == 'skip':
+                    continue
+                parts.append(self.value_of_kind(e, k, env))
+            val = '(%s, %s)' % (key, ', '.join(parts))
+            nm = self.var(name)
+            # python: an existing key keeps its position and gets the new value, a new key is appended
+            return ('%slet %s : %s := if %s.any (fun e__ => e__.1 == %s) then %s.map (fun e__ => if e__.1 == %s then %s else e__) '
+                    'else %s ++ [%s]\n' % (ind, nm, self.lean_ty('dict'), nm, key, nm, key, val, nm, val)), False
+        # ---- xs = []  for a list declared to receive tuples
+        if isinstance(s, ast.Assign) and len(s.targets) == 1 and isinstance(s.targets[0], ast.Name) \
+                and s.targets[0].id in self.tuple_appends and isinstance(s.value, ast.List) and not s.value.elts:
+            kinds = self.tuple_appends[s.targets[0].id]
+            if [k for k in kinds if k != 'skip'] != ['larr']:
+                self.fail(s, 'unsupported kinds of appended tuples')
+            env[s.targets[0].id] = 'larrlist'
+            return '%slet %s : %s := []\n' % (ind, self.var(s.targets[0].id), self.lean_ty('larrlist')), False
+        # ---- x = f(…) for a translated f with an optional result
+        if isinstance(s, ast.Assign) and len(s.targets) == 1 and isinstance(s.targets[0], ast.Name) \
+                and isinstance(s.value, ast.Call):
+            tgt = self.known.get(ast.unparse(s.value.func))
+            if tgt is not None and tgt.get('shaped') and tgt.get('returns') in OPT_KINDS:
+                x = s.targets[0].id
+                env[x] = tgt['returns']
+                self.views.pop(x, None)
+                self.shapes.pop(x, None)
+                if tgt.get('ret_dims') and OPT_KINDS[tgt['returns']] in NDIM:
+                    self.shapes[x] = [self.dim_text(d) for d in tgt['ret_dims']]
+                return '%slet %s : %s := %s\n' % (ind, self.var(x), self.lean_ty(env[x]), self.known_call(s.value, tgt, env)), False
         # ---- if <statically decided test>: only the branch taken is translated
         if isinstance(s, ast.If):
             sv = self.static_value(s.test)
@@ -888,6 +1304,8 @@ class FnShaped(translate.Fn):
             return '', False
         # ---- statements that only bind helper objects (exact text declared in the spec)
         if ast.unparse(s) in self.ignore_stmts:
+            if isinstance(s, ast.Assign) and len(s.targets) == 1 and isinstance(s.targets[0], ast.Name):
+                self.ignored_bind[s.targets[0].id] = [n.id for n in ast.walk(s.value) if isinstance(n, ast.Name)]
             return '', False
         if ast.unparse(s) in self.obj_derived:
             name, src = self.obj_derived[ast.unparse(s)]
@@ -959,11 +1377,13 @@ class FnShaped(translate.Fn):
                     env[t.id] = k
                     self.views.pop(t.id, None)
                     self.shapes.pop(t.id, None)
+                    if tgt.get('ret_dims') and k in NDIM:
+                        self.shapes[t.id] = [self.dim_text(d) for d in tgt['ret_dims'][i]]
                 return out, False
         # ---- stores with slices / rows / masks
         if isinstance(s, (ast.Assign, ast.AugAssign)):
             t = s.targets[0] if isinstance(s, ast.Assign) and len(s.targets) == 1 else getattr(s, 'target', None)
-            if isinstance(t, ast.Subscript) and isinstance(t.value, ast.Name) and env.get(t.value.id) in ('arr', 'arr2'):
+            if isinstance(t, ast.Subscript) and isinstance(t.value, ast.Name) and env.get(t.value.id) in FARR:
                 r = self.np_store(s, t, env, ind)
                 if r is not None:
                     return r, False
@@ -974,6 +1394,21 @@ class FnShaped(translate.Fn):
             if isinstance(f, ast.Attribute) and f.attr == 'append' and isinstance(f.value, ast.Name) \
                     and env.get(f.value.id) in ('arrlist', 'arr2list') and len(c.args) == 1 and not c.keywords:
                 return self.list_append(f.value.id, c.args[0], env, ind, s), False
+            if isinstance(f, ast.Attribute) and f.attr == 'append' and isinstance(f.value, ast.Name) \
+                    and env.get(f.value.id) == 'larrlist' and len(c.args) == 1 and not c.keywords:
+                # xs.append((…, E, …)): of the tuple, the one 1-D array declared as modelled, with its length
+                kinds = self.tuple_appends.get(f.value.id, [])
+                tup = c.args[0]
+                if not (isinstance(tup, ast.Tuple) and len(tup.elts) == len(kinds)):
+                    self.fail(s, 'the appended tuple does not match its declaration')
+                e = [x for x, k in zip(tup.elts, kinds) if k == 'larr'][0]
+                v = self.aval(e, env)
+                if not (isinstance(v, AV) and v.ndim == 1 and v.dtype == 'f' and isinstance(v.shape[0], str) and v.shape[0] != BC):
+                    self.fail(s, 'append of something else than a 1-D array of known length')
+                self.check_store(f.value.id, s)
+                nm = self.var(f.value.id)
+                return '%slet %s : %s := %s ++ [(%s, %s)]\n' % (ind, nm, self.lean_ty('larrlist'), nm, v.shape[0],
+                                                               v.plain if v.plain else self.lam(v)[1:-1]), False
             tgt = self.known.get(ast.unparse(f))
             if tgt is not None and tgt.get('shaped') and tgt.get('out'):
                 i = tgt['arg_names'].index(tgt['out'])
@@ -1038,10 +1473,108 @@ class FnShaped(translate.Fn):
                 if not (isinstance(s.value, ast.Tuple) and len(s.value.elts) == len(rk)):
                     self.fail(s, 'a tuple of %d values was declared as the result' % len(rk))
                 parts = [self.value_of_kind(e, k, env) for e, k in zip(s.value.elts, rk)]
+                if self.ret_dims:
+                    for e, d in zip(s.value.elts, self.ret_dims):
+                        self.check_ret_dims(e, d, env)
                 return ind + '(' + ', '.join(parts) + ')\n', True
             if rk in ('arr', 'arr2', 'arrlist', 'arr2list'):
+                self.check_ret_dims(s.value, self.ret_dims, env)
                 return ind + self.value_of_kind(s.value, rk, env) + '\n', True
+            if rk in OPT_KINDS:
+                if isinstance(s.value, ast.Constant) and s.value.value is None:
+                    return ind + 'none\n', True
+                if isinstance(s.value, ast.Name) and env.get(s.value.id) == rk:
+                    return ind + self.var(s.value.id) + '\n', True
+                if OPT_KINDS[rk] == 'larrlist':
+                    if not (isinstance(s.value, ast.Name) and env.get(s.value.id) == 'larrlist'):
+                        self.fail(s, 'a list of arrays with their lengths was declared as the result')
+                    return ind + '(some %s)\n' % self.var(s.value.id), True
+                self.check_ret_dims(s.value, self.ret_dims, env)
+                return ind + '(some %s)\n' % self.value_of_kind(s.value, OPT_KINDS[rk], env), True
         return super().stmt_ext(s, env, ind, rest, tail, inline)
+
+    def check_ret_dims(self, node, dims, env):
+        """the declared shape of a returned array (what callers are told) against the shape of the value returned"""
+        if not dims:
+            return
+        v = self.aval(node, env)
+        if not isinstance(v, AV) or v.ndim != len(dims):
+            self.fail(node, 'the returned value does not have the declared rank')
+        for a, d in zip(v.shape, dims):
+            self.need_equal(a, self.dim_text(d), node)
+
+    def opaque_branch(self, s, env, ind, rest):
+        """`if c: body` (no else) declared in `opaque_if`: the test is translated; the body becomes ONE abstract function
+        (a parameter) of every variable it reads, returning the variables it re-binds that are used afterwards.  Sound for a
+        body that only computes on local variables (checked: assignments and nested ifs, no calls on objects)."""
+        if s.orelse or self.ends_in_return(s.body) or self.has_break(s.body):
+            self.fail(s, 'unsupported shape of an abstract branch')
+        if not any(s is st for st in self.node.body):
+            self.fail(s, 'an abstract branch must be a statement of the function body (liveness is decided there)')
+        for n in ast.walk(ast.Module(body=s.body, type_ignores=[])):
+            if isinstance(n, (ast.Return, ast.Yield, ast.For, ast.While, ast.With, ast.Raise, ast.Global, ast.Nonlocal)):
+                self.fail(s, 'unsupported statement inside an abstract branch')
+            if isinstance(n, (ast.Assign, ast.AugAssign)):
+                for t in (n.targets if isinstance(n, ast.Assign) else [n.target]):
+                    while isinstance(t, ast.Subscript):
+                        t = t.value
+                    if not isinstance(t, ast.Name):
+                        self.fail(s, 'an abstract branch may only assign local variables')
+            if isinstance(n, ast.Expr):
+                self.fail(s, 'an expression statement inside an abstract branch')
+        c = self.cond(s.test, env)
+        later = {n.id for st in list(rest) + list(getattr(self, '_rest', [])) for n in ast.walk(st) if isinstance(n, ast.Name)}
+        assigned = self.assigned(s.body, env)
+        carried = [n for n in assigned if n in env and n in later]
+        dead = [n for n in assigned if n in env and n not in later]
+        if not carried:
+            self.fail(s, 'an abstract branch that changes nothing used afterwards')
+        reads = []
+        loads = []                                        # names read before the body itself defines them, in textual order
+        defined = set()
+        for st in s.body:
+            names = [n for n in ast.walk(st) if isinstance(n, ast.Name)]
+            names.sort(key=lambda n: (n.lineno, n.col_offset))
+            for n in names:
+                plain_target = isinstance(st, ast.Assign) and any(n is t for t in st.targets)
+                if not plain_target and n.id not in defined:
+                    loads.append(n)
+            if isinstance(st, ast.Assign) and len(st.targets) == 1 and isinstance(st.targets[0], ast.Name):
+                defined.add(st.targets[0].id)
+        for n in loads:
+            if n.id in env:
+                cand = [n.id]
+            elif n.id in self.ignored_bind:
+                cand = self.ignored_bind[n.id]
+            elif n.id in assigned or n.id in ('np', 'numpy'):
+                cand = []
+            else:
+                self.fail(s, 'the abstract branch reads %s, which is not a translated variable' % n.id)
+            for nm in cand:
+                if nm in ('np', 'numpy'):
+                    continue
+                if nm not in env:
+                    self.fail(s, 'the abstract branch depends on %s, which is not a translated variable' % nm)
+                if nm not in reads:
+                    reads.append(nm)
+        for nm in carried:
+            if nm not in reads:
+                reads.append(nm)
+        okk = set(NDIM) | {'s', 'nat'}
+        for nm in reads:
+            if env[nm] not in okk:
+                self.fail(s, 'the abstract branch reads %s of unsupported kind %s' % (nm, env[nm]))
+        tys = [self.lean_ty(env[nm]) if env[nm] in ('s', 'nat') or self.lean_ty(env[nm]).startswith('(')
+               else '(' + self.lean_ty(env[nm]) + ')' for nm in reads]
+        rty = self.state_type(carried, env)
+        self.add_param(self.opaque_if[ast.unparse(s.test)], ' → '.join(tys + [rty]))
+        call = '(%s %s)' % (self.opaque_if[ast.unparse(s.test)], ' '.join(self.var(nm) for nm in reads))
+        src = '(if %s then %s else %s)' % (c, call, self.state_pack(carried))
+        out = self.unpack(carried, src, ind)
+        for nm in dead:                                   # re-bound inside, never used again: no longer a known variable
+            env.pop(nm, None)
+            self.shapes.pop(nm, None)
+        return out
 
     def list_append(self, name, value, env, ind, node):
         """`xs.append(E)` / a yielded component: the list grows by the VALUE E has now (a snapshot: later stores into the
@@ -1056,13 +1589,13 @@ class FnShaped(translate.Fn):
                                                    v.plain if v.plain else self.lam(v)[1:-1])
 
     def value_of_kind(self, node, kind, env):
-        if kind in ('arr', 'arr2', 'arrlist', 'arr2list'):
+        if kind in ('arr', 'arr2', 'arrlist', 'arr2list', 'arr3', 'arr4'):
             v = self.aval(node, env)
             if kind in ('arrlist', 'arr2list'):
                 if not isinstance(v, LV) or v.kind != kind:
                     self.fail(node, 'a list of arrays was declared as the result')
                 return v.text
-            if not isinstance(v, AV) or v.dtype != 'f' or v.ndim != (1 if kind == 'arr' else 2):
+            if not isinstance(v, AV) or v.dtype != 'f' or v.ndim != NDIM[kind] or any(isinstance(d, MaskAx) for d in v.shape):
                 self.fail(node, 'an array of kind %s was declared as the result' % kind)
             return v.plain if v.plain else self.lam(v)
         if kind == 'nat':
@@ -1071,6 +1604,10 @@ class FnShaped(translate.Fn):
             if isinstance(node, ast.Name) and env.get(node.id) == 'optarr2':
                 return self.var(node.id)
             self.fail(node, 'an optional array was declared as the result')
+        if kind == 'dict':
+            if isinstance(node, ast.Name) and env.get(node.id) == 'dict':
+                return self.var(node.id)
+            self.fail(node, 'a dict was declared as the result')
         return self.expr(node, env)
 
     @staticmethod
@@ -1081,6 +1618,8 @@ class FnShaped(translate.Fn):
         """True / False when the test is decided by the spec's `static` assumptions, else None"""
         if ast.unparse(test) in self.static:
             return bool(self.static[ast.unparse(test)])
+        if isinstance(test, ast.Name) and test.id in self.assume:
+            return bool(self.assume[test.id])
         if isinstance(test, ast.UnaryOp) and isinstance(test.op, ast.Not):
             v = self.static_value(test.operand)
             return None if v is None else not v
@@ -1169,12 +1708,16 @@ class FnShaped(translate.Fn):
         """a[...] = E / a[...] op= E where the target selects more than one element; None: a plain element store"""
         name = t.value.id
         kind = env[name]
-        nd = 1 if kind == 'arr' else 2
+        nd = NDIM[kind]
         idx = t.slice
         idxs = list(idx.elts) if isinstance(idx, ast.Tuple) else [idx]
         idxs = [i for i in idxs if not (isinstance(i, ast.Name) and i.id in self.lift)]
         if any(is_none(i) for i in idxs):
             self.fail(s, 'None in a store target')
+        mk = [self.aval(i, env) if not isinstance(i, ast.Slice) and not is_ellipsis(i) else None for i in idxs]
+        mk = [m if isinstance(m, AV) and m.dtype == 'b' else None for m in mk]
+        if any(m is not None and m.ndim > 1 for m in mk) or (any(m is not None for m in mk) and self.masked_value(s.value, env)):
+            return self.np_store_masked(s, t, idxs, mk, env, ind)
         full = len(idxs) == nd and not any(is_ellipsis(i) for i in idxs)
         idxs = self.norm_indices(idxs, nd, s)
         masks = [self.aval(i, env) if not isinstance(i, ast.Slice) else None for i in idxs]
@@ -1261,12 +1804,134 @@ class FnShaped(translate.Fn):
         return '%slet %s : %s := fun %s => if %s then %s else %s\n' % (
             ind, nm, self.lean_ty(kind), ' '.join(bs), ' ∧ '.join(conds), new, old)
 
+    def masked_value(self, value, env):
+        """is the stored value an array with an axis selected by a mask?"""
+        try:
+            v = self.aval(value, env)
+        except Untranslatable:
+            return False
+        return isinstance(v, AV) and any(isinstance(d, MaskAx) for d in v.shape)
+
+    def np_store_masked(self, s, t, idxs, mk, env, ind):
+        """`a[…, M, …] = E` / `op=` with ONE boolean mask M (covering M.ndim axes of a), integers, slices.  The selected block
+        has, in numpy's order (the advanced indices — the mask and the integers — where they stand when adjacent, else
+        first), one axis for the mask and one per slice; E is broadcast to it.  An axis of E selected by the SAME mask
+        expression is paired with the mask axis position by position, i.e. at the same original indices."""
+        name = t.value.id
+        kind = env[name]
+        nd = NDIM[kind]
+        if sum(1 for m in mk if m is not None) != 1 or any(is_ellipsis(i) for i in idxs):
+            self.fail(s, 'unsupported combination of a mask with other indices in a store')
+        self.check_store(name, s)
+        nm = self.var(name)
+        bs = self.BINDERS[:nd]
+        shape = self.shapes.get(name) or [None] * nd
+        conds, old_ix = [], []
+        entries = []       # per index: ('mask', MaskAx, [binders]) | ('fix',) | ('slice', position text, length)
+        ax = 0
+        for i, m in zip(idxs, mk):
+            if m is not None:
+                if ax + m.ndim > nd:
+                    self.fail(s, 'too many indices')
+                for d in range(m.ndim):
+                    self.need_equal(m.shape[d], shape[ax + d], s)
+                own = bs[ax:ax + m.ndim]
+                conds.append('%s = true' % m.elem(own))
+                old_ix.extend(own)
+                entries.append(('mask', MaskAx(ast.unparse(i), m), own))
+                ax += m.ndim
+                continue
+            if ax >= nd:
+                self.fail(s, 'too many indices')
+            b, ln = bs[ax], shape[ax]
+            if isinstance(i, ast.Slice):
+                if i.step is not None:
+                    self.fail(s, 'store into a strided slice')
+                lo = self.slice_bound(i.lower, ln, env, s) if i.lower is not None else None
+                hi = self.slice_bound(i.upper, ln, env, s) if i.upper is not None else None
+                if hi is not None:
+                    self.need_le(hi, ln)
+                if lo is not None:
+                    conds.append('%s ≤ %s' % (lo, b))
+                if hi is not None:
+                    conds.append('%s < %s' % (b, hi))
+                if hi is not None:
+                    length = hi if lo is None else '(%s - %s)' % (hi, lo)
+                elif ln is None or ln == BC:
+                    length = None
+                else:
+                    length = ln if lo is None else '(%s - %s)' % (ln, lo)
+                entries.append(('slice', b if lo is None else '(%s - %s)' % (b, lo), length))
+                old_ix.append(b)
+            else:
+                fx = self.index(i, env, ln if ln not in (None, BC) else None)
+                conds.append('%s = %s' % (b, fx))
+                old_ix.append(fx)
+                entries.append(('fix',))
+            ax += 1
+        while ax < nd:                                    # trailing axes: full slices
+            entries.append(('slice', bs[ax], shape[ax] if shape[ax] != BC else None))
+            old_ix.append(bs[ax])
+            ax += 1
+        adv = [n for n, e in enumerate(entries) if e[0] in ('mask', 'fix')]
+        adjacent = adv == list(range(adv[0], adv[-1] + 1))
+        if adjacent:
+            sel = [e for e in entries if e[0] in ('mask', 'slice')]
+        else:
+            sel = [e for e in entries if e[0] == 'mask'] + [e for e in entries if e[0] == 'slice']
+        v = self.aval(s.value, env)
+        if isinstance(v, LV):
+            self.fail(s, 'a list stored into an array')
+        if v is None:
+            new = self.expr(s.value, env)
+        else:
+            if v.dtype != 'f':
+                self.fail(s, 'a mask stored into an array')
+            if v.ndim > len(sel):
+                self.fail(s, 'the stored value has more axes than the target')
+            off = len(sel) - v.ndim
+            vix = []
+            for a, d in enumerate(v.shape):
+                e = sel[off + a]
+                if d == BC:
+                    vix.append('0')
+                elif isinstance(d, MaskAx):
+                    if e[0] != 'mask' or not d.same(e[1]):
+                        self.fail(s, 'the value is selected by another mask than the target')
+                    vix.append(list(e[2]))
+                else:
+                    if e[0] == 'mask':
+                        self.fail(s, 'an array stored along a masked axis')
+                    self.need_equal(d, e[2], s)
+                    vix.append(e[1])
+            new = v.elem(vix)
+        if isinstance(s, ast.AugAssign):
+            ops = {ast.Add: '+', ast.Sub: '-', ast.Mult: '*', ast.Div: '/'}
+            if type(s.op) not in ops:
+                self.fail(s, 'unsupported augmented assignment')
+            new = '((%s %s) %s %s)' % (nm, ' '.join(old_ix), ops[type(s.op)], new)
+        return '%slet %s : %s := fun %s => if %s then %s else %s %s\n' % (
+            ind, nm, self.lean_ty(kind), ' '.join(bs), ' ∧ '.join(conds), new, nm, ' '.join(bs))
+
     # ------------------------------------------------------------------ objects
     def method_call(self, s, c, f, env, ind):
         m = self.methods[f.attr]
         kinds = list(m['kinds'])
         if len(c.args) != len(kinds):
             self.fail(s, 'method call with a different number of positional arguments than declared')
+        if m.get('updates_obj'):
+            # a method called for its effect on the object itself (`contrib.prepare(…)`): the object after the call is an
+            # abstract function of the object before; lists built from the object hold the SAME object (python aliasing)
+            if c.keywords or any(k != 'skip' for k in kinds):
+                self.fail(s, 'a method that updates its object takes no translated arguments')
+            self.add_param(m['lean'], 'ι → ι')
+            self.uses_iota = True
+            o = self.var(f.value.id)
+            out = '%slet %s := (%s %s)\n' % (ind, o, m['lean'], o)
+            for lst, elems in self.objlist_elems.items():
+                if f.value.id in elems:
+                    out += '%slet %s : List ι := [%s]\n' % (ind, lst, ', '.join(self.var(e) for e in elems))
+            return out
         args = [self.var(f.value.id)]
         tys = ['ι']
         pairs = list(zip(c.args, kinds))
@@ -1476,6 +2141,21 @@ class FnShaped(translate.Fn):
             return 'Nat → Bool'
         if kind == 'optarr2':
             return 'Option (Nat → Nat → α)'
+        if kind == 'arr3':
+            return '(Nat → Nat → Nat → α)'
+        if kind == 'arr4':
+            return '(Nat → Nat → Nat → Nat → α)'
+        if kind == 'barr2':
+            return '(Nat → Nat → Bool)'
+        if kind == 'optarr4':
+            return 'Option (Nat → Nat → Nat → Nat → α)'
+        if kind == 'larrlist':                             # a list of 1-D arrays, each with its length
+            return 'List (Nat × (Nat → α))'
+        if kind == 'optlarrlist':
+            return 'Option (List (Nat × (Nat → α)))'
+        if kind == 'dict':                                 # a python dict, in insertion order: keys are strings
+            (d,) = self.dicts.values()
+            return 'List (String × (%s))' % ' × '.join('(' + self.lean_ty(k) + ')' for k in d['value'] if k != 'skip')
         return super().lean_ty(kind)
 
     def result_type_ext(self, ret, rty):
@@ -1485,6 +2165,11 @@ class FnShaped(translate.Fn):
         len_params = [(arr, n) for arr, n in self.lens.items() if n not in self.arg_names]
         self.known_extra = dict(getattr(self, 'known_extra', {}) or {}, returns=rk, out=self.out_var, shaped=True,
                                 len_params=len_params)
+        if self.assume or self.ret_dims:
+            a = self.node.args
+            pos = [x.arg for x in a.args]
+            defaults = {n: ast.unparse(d) for n, d in zip(pos[len(pos) - len(a.defaults):], a.defaults)}
+            self.known_extra.update(assume=dict(self.assume), defaults=defaults, ret_dims=self.ret_dims)
         if isinstance(rk, list):
             return ' × '.join('(' + self.lean_ty(k) + ')' for k in rk)
         return rty
@@ -1515,6 +2200,11 @@ class FnShaped(translate.Fn):
                     or (isinstance(s, ast.If) and self.ends_in_return(s.body)) \
                     or (isinstance(s, ast.Expr) and isinstance(s.value, ast.Yield) and self.spec.get('yields') == 'single')
                 if terminal:
+                    if isinstance(s, ast.If):
+                        # Fn.block translates the test AFTER the rest of the block: the shapes in force at the test
+                        if not hasattr(self, '_late_shapes'):
+                            self._late_shapes = {}
+                        self._late_shapes[id(s.test)] = (dict(self.shapes), dict(self.views))
                     return out + super().block(stmts[i:], env, ind, tail, inline)
                 if isinstance(s, ast.If) and self.static_value(s.test) is None \
                         and not any(isinstance(o, (ast.Is, ast.IsNot)) for n in ast.walk(s.test)
@@ -1527,6 +2217,7 @@ class FnShaped(translate.Fn):
                         self._branch_ctx[id(s.body)] = '%s = true →\n' % c
                         if s.orelse:
                             self._branch_ctx[id(s.orelse)] = '%s = false →\n' % c
+                self._rest = stmts[i + 1:]                # (what follows in this block: liveness of an abstract branch)
                 t = super().block([s], env, ind, None, inline=True)
                 out += t
                 if t:
